@@ -161,7 +161,7 @@ class World(object):
         nerr0 = len([1 for lv, _ in self.options.logger.lines if lv == 'error'])
         try:
             r = self._apply(op)
-        except Exception as e:       # judged by the monitor: nothing may escape from these entry points
+        except BaseException as e:   # judged by the monitor: nothing may escape from these entry points
             r = list(self.effs) + ['ERaise (* %s escaped from %s *)' % (type(e).__name__, kind)]
         nerr1 = len([1 for lv, _ in self.options.logger.lines if lv == 'error'])
         ndisc = len([1 for e in r if e.startswith(('EDiscard', 'EWriteError'))])
@@ -181,7 +181,7 @@ class World(object):
                 return ['EInapplicable']
             try:
                 r = self.sup.remove_process_group(self.names[pi])
-            except Exception as e:       # judged by the monitor: a removal attempt must not raise
+            except BaseException as e:   # judged by the monitor: a removal attempt must not raise
                 return ['ERaise (* remove_process_group raised %s *)' % type(e).__name__] + list(self.effs)
             return ['ERegroup %d' % pi if r else 'ERefused %d' % pi] + list(self.effs)
         if kind == 'add':
